@@ -235,11 +235,14 @@ pub struct ObsModel<T> {
     pub quits: Ghost<bool>,
     /// identities of the observables this observer has been handed to (`o.inner_subscribe(s)`), in order
     pub subs: Ghost<Seq<int>>,
+    /// number of `next` calls made while the subscriber was no longer subscribed (C06, producer side: a producer that polls
+    /// is_subscribed() before every emission keeps this at 0)
+    pub late: Ghost<nat>,
 }
 
 impl<T> ObsModel<T> {
     pub open spec fn wf(&self) -> bool { self.sub@ ==> !ended(self.out@) }
-    pub open spec fn fresh(&self) -> bool { self.sub@ && self.out@ =~= Seq::<Ev<T>>::empty() }
+    pub open spec fn fresh(&self) -> bool { self.sub@ && self.out@ =~= Seq::<Ev<T>>::empty() && self.late@ == 0 }
 
     #[verifier::external_body]
     pub fn is_subscribed(&self) -> (r: bool)
@@ -255,6 +258,7 @@ impl<T> ObsModel<T> {
             old(self).sub@ ==> final(self).out@ == old(self).out@.push(Ev::N(x)),
             old(self).sub@ && !old(self).quits@ ==> final(self).sub@,
             !old(self).sub@ ==> final(self).out@ == old(self).out@ && !final(self).sub@,
+            final(self).late@ == old(self).late@ + (if old(self).sub@ { 0nat } else { 1nat }),
     { unimplemented!() }
 
     #[verifier::external_body]
@@ -262,7 +266,7 @@ impl<T> ObsModel<T> {
         requires old(self).wf(),
         ensures
             final(self).wf(),
-            final(self).quits@ == old(self).quits@,
+            final(self).quits@ == old(self).quits@, final(self).late@ == old(self).late@,
             old(self).sub@ ==> final(self).out@ == old(self).out@.push(Ev::E(e)),
             !old(self).sub@ ==> final(self).out@ == old(self).out@,
             !final(self).sub@,
@@ -273,7 +277,7 @@ impl<T> ObsModel<T> {
         requires old(self).wf(),
         ensures
             final(self).wf(),
-            final(self).quits@ == old(self).quits@,
+            final(self).quits@ == old(self).quits@, final(self).late@ == old(self).late@,
             old(self).sub@ ==> final(self).out@ == old(self).out@.push(Ev::C),
             !old(self).sub@ ==> final(self).out@ == old(self).out@,
             !final(self).sub@,
